@@ -83,6 +83,47 @@ CHECKS.update({
             "parameters, seeds and lengths sampled", "DESIGN.md §4 C19"),
 })
 
+CHECKS.update({
+    "C04": ("thr_mon", "guard registry snapshots around every ForwardGlobalEpoch under thread churn on reused IDs",
+            "Guards (unique ids, epoch as reported) are registered after creation and unregistered before destruction; "
+            "every guard present in the snapshots taken before and after a forward must appear in the list published "
+            "for the new epoch and GetMinEpoch must not exceed it; worker threads exit and are replaced at once, the "
+            "replacement being steered onto the ID that is being vacated while the exit path is delayed.",
+            "capacities and schedules sampled; 'completely created' = CreateEpochGuard returned and the monitor "
+            "registered it with a seq_cst store", "DESIGN.md §4 C04"),
+    "C05": ("thr_mon", "ghost owner table over thread churn with forced probe collisions",
+            "Every thread checks range and stability of its ID and claims a ghost owner slot that must be empty; the "
+            "slot is cleared as the last action of user code, so a clash is two running threads with equal IDs.",
+            "capacities 1,2,3,8 (quick) / +5,16,64 (thorough)", "DESIGN.md §4 C05"),
+    "C14": ("thr_mon", "structural progress watchdog over waves of exactly N holders, oversubscription and churn",
+            "After all threads of a step are joined, a wave of exactly N simultaneous holders must complete; "
+            "oversubscribed starts must all obtain an ID as holders exit; a claimer spinning for the horizon while "
+            "IDs should be free is a hang witness.",
+            "'as soon as' = within the watchdog horizon", "DESIGN.md §4 C14"),
+    "C15": ("thr_mon", "heartbeat history monitor with the exit path delayed between its steps",
+            "Each new owner of an ID checks, before doing anything else, that every heartbeat recorded for earlier "
+            "owners of that ID is expired; running threads' heartbeats are checked unexpired by other threads; after "
+            "join every heartbeat must be expired.",
+            "schedules sampled; the exit window is widened by injected delays", "DESIGN.md §4 C15"),
+    "C16": ("thr_mon", "coordinator/worker monitors of epoch values + quiescent-forward oracle",
+            "The coordinator checks +1 per forward from the initial epoch, workers check GetMinEpoch <= later "
+            "GetCurrentEpoch and monotonicity; at quiescent points (all guards destroyed, workers parked) one "
+            "complete forward must publish exactly {cur, cur-1} and GetMinEpoch == cur-1.",
+            "hundreds of thousands of forwards across hundreds of 256-epoch boundaries, sampled", "DESIGN.md §4 C16"),
+    "C17": ("thr_mon (plain + ASan builds)", "list-stability monitor with stalls injected between every two steps of "
+            "GetProtectedEpochs, symptoms keyed by observed history class",
+            "Every returned list is copied, checked (strictly descending, first == guard epoch, predecessor present) "
+            "and compared again after the guard was held across forwards; crashes, exceptions and ASan reports on "
+            "list memory are violations too. Known findings exist for two stall positions (see DESIGN.md §5).",
+            "schedules sampled", "DESIGN.md §4 C17"),
+    "C20": ("thr_mon (plain + ASan/LSan builds)", "sequential reference model of the protected-epoch list + "
+            "allocation accounting of list nodes",
+            "Lock-step histories: after every forward the published list must equal sort_desc(unique({new, prev} ∪ "
+            "pinned)) and GetMinEpoch its last element; live over-aligned allocations (= list nodes) must stay "
+            "within distinct 256-ranges + 2 and return to the baseline after ~EpochManager (LSan as second oracle).",
+            "histories sampled (thousands of epochs, long pins)", "DESIGN.md §4 C20"),
+})
+
 PENDING = {
 }
 
@@ -128,6 +169,9 @@ def main():
             "add_only": True,
         },
         "engines": [
+            {"name": "thr_mon", "path": "harness/thread/thr_mon.cpp",
+             "serves_properties": ["C04", "C05", "C14", "C15", "C16", "C17", "C20"],
+             "kind_free_text": "E3: IDManager / EpochManager monitors, built per capacity DBGROUP_MAX_THREAD_NUM"},
             {"name": "zipf_mon", "path": "harness/zipf/zipf_mon.cpp", "serves_properties": ["C06", "C18", "C19"],
              "kind_free_text": "E4: reference-model monitor over inputs of the Zipf generators"},
             {"name": "lock_stress", "path": "harness/lock/lock_stress.cpp",
